@@ -12,7 +12,7 @@ RULE = ("every undirected graph on n <= 5 (thorough 6) labelled nodes, as a symm
         "linkage at t with the components of the max_edits=t neighbour graph; non-trivial = at least one edge")
 ASSUMPTIONS = ["SciPy linkage/fcluster and igraph community detection are the trusted base named by the property; community variants are only required to stay inside connected components",
                "rapidfuzz cdist workers=-1 answered with one thread"]
-REQUIRED_CLASSES = {"all": ["empty-neighbour-list", "isolated-node", "distance-0-edge", "float-distances", "string-labels", "series-labels", "tcr-table", "single-linkage-identity", "repeated-node-labels", "empty-linkage_kws", "self-matches-in-neighbour-list", "partial-cluster_kws"]}
+REQUIRED_CLASSES = {"all": ["empty-neighbour-list", "isolated-node", "distance-0-edge", "float-distances", "string-labels", "series-labels", "tcr-table", "single-linkage-identity", "repeated-node-labels", "empty-linkage_kws", "self-matches-in-neighbour-list", "partial-cluster_kws", "missing-node-labels"]}
 MIN_OUTCOMES = 10
 SINGLE_THREAD_RAPIDFUZZ = True
 METHODS = ("cc", "fastgreedy", "multilevel", "leiden")
@@ -58,6 +58,9 @@ def spaces(tier):
 
 def _labels(n, spell):
     import pandas as pd
+    if spell == "missing":
+        # annotation labels may be missing for some nodes (None / NaN): membership is about nodes, not about labels
+        return [None if i % 2 else "e%d" % i for i in range(n)]
     if spell == "repeated":
         # labels need not be unique (donor, V gene, epitope ...): two nodes may carry the same label
         return ["d%d" % (i % 2) for i in range(n)]
@@ -79,9 +82,11 @@ def _check_clustering(acc, case, triplets, n, edges, tag):
         acc.cls("isolated-node")
     if not triplets:
         acc.cls("empty-neighbour-list")
-    for spell in ("list", "ints", "series", "repeated"):
+    for spell in ("list", "ints", "series", "repeated", "missing"):
         if spell == "repeated":
             acc.cls("repeated-node-labels")
+        if spell == "missing":
+            acc.cls("missing-node-labels")
         if spell == "list":
             acc.cls("string-labels")
         if spell == "series":
@@ -97,10 +102,10 @@ def _check_clustering(acc, case, triplets, n, edges, tag):
             try:
                 node_col = "node" if "node" in r.columns else r.columns[0]
                 got = {}
-                if spell == "repeated":
+                if spell in ("repeated", "missing"):
                     # labels are ambiguous: rows are identified by their position in the caller's node list (the frame keeps it as index)
                     for pos_, node, cl in zip(r.index.tolist(), r[node_col].tolist(), r["cluster"].tolist()):
-                        if lab[pos_] != node:
+                        if lab[pos_] != node and not (lab[pos_] is None and (node is None or node != node)):
                             raise ValueError("row %r carries label %r, node list has %r" % (pos_, node, lab[pos_]))
                         got.setdefault(cl, []).append(pos_)
                 else:
@@ -256,6 +261,8 @@ def check_case(case, acc):
         variants = {"alpha": (pd.DataFrame({"CDR3A": A}), da), "beta": (pd.DataFrame({"CDR3B": B}, index=range(5, 5 + n)), db),
                     "both": (pd.DataFrame({"TRBV": ["TRBV2*01"] * n, "CDR3B": B, "CDR3A": A}, index=range(5, 5 + n)), da + db),
                     "legacy-tuple": ((A, B), da + db),
+                    # gene annotation may be unknown for some rows: the metric only reads the CDR3 columns
+                    "both+unknown-genes": (pd.DataFrame({"TRBV": [None if i % 2 else "TRBV2*01" for i in range(n)], "TRAJ": [None] * n, "CDR3B": B, "CDR3A": A}), da + db),
                     # the two chains as Series taken from differently indexed tables: pairing is by position
                     "legacy-tuple-of-series": ((pd.Series(A, index=range(n)), pd.Series(B, index=range(n - 1, -1, -1))), da + db)}
         for name, (inp, dist) in variants.items():
